@@ -6,6 +6,9 @@ AR = 'brush-core/src/arithmetic.rs'
 PA = 'brush-parser/src/arithmetic.rs'
 HL = 'brush-interactive/src/highlighting.rs'
 
+# masked by an open known finding (inside its `except` region), hence not killable while the finding is open:
+#   U2 break-zero-accepted-as-one: `if self.which_loop <= 0` -> `< 0`  (only changes n == 0, which C02:loop-count-nonpositive excepts)
+
 MUTANTS = {
     'U1': [
         ('dec-forgets-minus-one', RS, 'levels: *levels - 1,', 'levels: *levels,', 2),
@@ -13,6 +16,14 @@ MUTANTS = {
         ('u8-of-notfound', RS, 'ExecutionExitCode::NotFound => 127', 'ExecutionExitCode::NotFound => 126'),
         ('return-or-exit-forgets-exit', RS, 'ExecutionControlFlow::ReturnFromFunctionOrScript | ExecutionControlFlow::ExitShell', 'ExecutionControlFlow::ReturnFromFunctionOrScript'),
         ('continue-zero-stays', RS, 'Self::BreakLoop { levels: 0 } | Self::ContinueLoop { levels: 0 } => Self::Normal', 'Self::BreakLoop { levels: 0 } => Self::Normal'),
+    ],
+    'U2': [
+        ('break-levels-not-decremented', 'brush-builtins/src/break_.rs', 'levels: (self.which_loop - 1) as usize,', 'levels: self.which_loop as usize,'),
+        ('continue-becomes-break', 'brush-builtins/src/continue_.rs', 'result.next_control_flow = ExecutionControlFlow::ContinueLoop {', 'result.next_control_flow = ExecutionControlFlow::BreakLoop {'),
+        ('return-code-truncated-to-7-bits', 'brush-builtins/src/return_.rs', '(code_32bit & 0xFF) as u8', '(code_32bit & 0x7F) as u8'),
+        ('return-outside-function-returns', 'brush-builtins/src/return_.rs', 'if context.shell.in_function() || context.shell.in_sourced_script() {', 'if true {'),
+        ('exit-ignores-last-status', 'brush-builtins/src/exit.rs', '            context.shell.last_exit_status()', '            0'),
+        ('exit-only-returns', 'brush-builtins/src/exit.rs', 'result.next_control_flow = ExecutionControlFlow::ExitShell;', 'result.next_control_flow = ExecutionControlFlow::ReturnFromFunctionOrScript;'),
     ],
     'U3': [
         ('errexit-ignores-pending-flow', 'brush-core/src/shell.rs', '''            && !result.is_success()
